@@ -22,6 +22,7 @@ type verifRollWorld struct {
 	finalizeAnswers map[string]bool
 	requireReady    bool // children must carry status condition Ready=True to count as healthy
 	extraPath       bool // nested mode: revisionHistory.fieldPaths = [spec.nodePool, spec.template] with spec.nodePool never set
+	nullStatus      bool // the hook answers without a status (null)
 	statusStanza    bool // the hook's children carry an (empty) status stanza and NOBODY ever writes a child's status
 	nested          bool
 	global          string // nested mode: value of the NON-revisioned field spec.x // revisioned value lives at spec.template.v, revision history = [spec.template]
@@ -64,6 +65,9 @@ func verifRollHook(r *verifRollWorld) *verifHook {
 				c.Object["status"] = map[string]interface{}{}
 			}
 			kids = append(kids, c)
+		}
+		if r.nullStatus {
+			return &v1.CompositeHookResponse{Children: kids}, nil
 		}
 		return &v1.CompositeHookResponse{Children: kids, Status: map[string]interface{}{"phase": "ok"}}, nil
 	}}
